@@ -65,6 +65,7 @@ def _corruptions(step):
     if step["req"]["m"] == "GET" and st == 200:
         c = copy.deepcopy(step); c["rep"]["body"] = "?corrupt"; out.append(("C01", c))
         c = copy.deepcopy(step); c["rep"]["clen"] = c["rep"]["clen"] + 1; out.append(("C01", c))
+        c = copy.deepcopy(step); c["rep"]["lm"] = False; out.append(("C01", c))
     c = copy.deepcopy(step); c["leak"] = True; out.append(("C17", c))
     c = copy.deepcopy(step); c["outside"] = "changed"; out.append(("C03", c))
     c = copy.deepcopy(step); c["secret"] = True; out.append(("C03", c))
@@ -236,6 +237,23 @@ def run(ctx, replay=None):
         vlib.write_ndjson(ep, ets)
         return dict(trees=ep, reqs=eenv["REQOUT"], n=len(ets))
 
+    def big_instance():
+        """trees beyond the bounded instances in size only: a collection with 130 members (contents x / y / empty / 200 kB), an
+        eight-level chain of collections with a file at every level; every request of the main universe against them"""
+        def ent(p, k, d=""):
+            return {"p": p, "k": k, "d": d, "n": 0}
+        t = [ent([], "c"), ent(["a"], "c"), ent(["b"], "c")]
+        for i in range(1, 8):
+            t.append(ent(["a"] * (i + 1), "c"))
+            t.append(ent(["a"] * i + ["y"], "f", "y"))
+        for i in range(130):
+            t.append(ent(["b", "m%03d" % i], "f", ["x", "y", "", "x"][i % 4] if i != 77 else "B200000"))
+        t2 = [ent([], "c"), ent(["a"], "f", "B1100000"), ent(["b"], "c")] + [ent(["b", "d%02d" % i], "c") for i in range(40)] \
+            + [ent(["b", "d%02d" % i, "f"], "f", "x") for i in range(0, 40, 3)]
+        bp = os.path.join(gen, "big-trees.ndjson")
+        vlib.write_ndjson(bp, [t, t2])
+        return bp
+
     def raw_slice(styles):
         """the same resource under non-canonical spellings (".", "..", empty segments, encoded dots) on the request path and
         in the Destination: the raw universe of C03, judged here for failure atomicity"""
@@ -272,6 +290,7 @@ def run(ctx, replay=None):
             product("deep", d["reqs"], treemod=4, treerem=ctx.seed % 4, trees=d["trees"])
             e = empty_instance()
             product("empty-files", e["reqs"], treemod=2, treerem=ctx.seed % 2, trees=e["trees"])
+            product("big-trees", env["REQOUT"], trees=big_instance())
             hists(60, 16, ctx.seed)
         else:
             product("main", env["REQOUT"])
@@ -279,6 +298,7 @@ def run(ctx, replay=None):
             product("deep", d["reqs"], trees=d["trees"])
             e = empty_instance()
             product("empty-files", e["reqs"], trees=e["trees"])
+            product("big-trees", env["REQOUT"], trees=big_instance())
             product("main-space", env["REQOUT"], treemod=4, treerem=ctx.seed % 4, conc="space")
             product("main-special", env["REQOUT"], treemod=4, treerem=(ctx.seed + 1) % 4, conc="special")
             product("main-dots", env["REQOUT"], treemod=4, treerem=(ctx.seed + 2) % 4, conc="dots")
@@ -305,6 +325,7 @@ def run(ctx, replay=None):
             hists(300, 24, ctx.seed)
             hists(150, 24, ctx.seed + 7, conc="dots")
             raw_slice([0, 1, 2, 3])
+            product("big-trees", env["REQOUT"], trees=big_instance())
     elif prop == "C17":
         # OS limits: every request of the universe with a 300-byte segment ("a") against trees that only map "b":
         # provokes ENAMETOOLONG in every file-system call site; only the leak bit is judged for this universe
